@@ -49,7 +49,7 @@ PROPS['C01'] = dict(
 )
 
 PROPS['C02'] = dict(
-    modules=['Vivid.Props.C02', 'Vivid.Props.C02Order'],
+    modules=['Vivid.Props.C02', 'Vivid.Props.C02Order', 'Vivid.Props.C02History'],
     gens=[],
     engines=[dict(name='ring', must_hit=['growth', 'growth-boundaries-crossed']), dict(name='mailbox', must_hit=[]),
              dict(name='actorsys', only=r'LOST-USER-MESSAGE|ended twice|PANIC|FATAL', must_hit=['ev:dead-letter'])],
@@ -60,7 +60,7 @@ PROPS['C02'] = dict(
     exhaustive=True,
     trusted_base=COMMON_TRUST + ['int64 indices modelled as Nat (overflow needs 2^62 queued items)'],
     assumptions=['ring operations are atomic (sync.Mutex); stash order and kill ordering are covered with the actor-system model (C03/C06 engines)'],
-    explanation='Refinement proof: for every initial size n > 0 and every operation sequence the ring returns what a list FIFO returns (induction over ops; growth case included); order clauses (system first, user FIFO, kill kinds, unstash order) as theorems on the actor-system model.',
+    explanation='Refinement proof: for every initial size n > 0 and every operation sequence the ring returns what a list FIFO returns (induction over ops; growth case included); order clauses (system first, user FIFO, kill kinds, unstash order) as theorems on the actor-system model; C02History lifts them to every history of one mailbox (any interleaving of enqueues by any senders, pause, resume, processing): processed ++ queued = arrival sequence per class, per-sender prefix order, user mail only picked when no system message is pending and not paused; deliver_eq_pick ties the history model to the selection policy of M10 deliver.',
 )
 
 PROPS['C17'] = dict(
